@@ -495,7 +495,8 @@ func (pr *progRun) doDial(i int, d *DDial) (evs []Ev, nops int, kinds []string, 
 	hang := false
 	select {
 	case r = <-done:
-	case <-time.After(20 * time.Second):
+	case <-time.After(Watchdog(20 * time.Second)):
+		NoteHang()
 		hang = true
 	}
 	runtime.ReadMemStats(&ms)
